@@ -8,10 +8,11 @@ SPEC = {
                                     "C15_query_error_not_retried", "C15_listed_query_errors",
                                     "C15_all_down_is_warning", "C15_unavailable_table",
                                     "C15_unavailable_table_design_refuted", "C15_second_call_served_from_cache",
-                                    "C15_nonvacuous"]},
+                                    "C15_errors_leave_no_trace", "C15_recovered_upstream_answers",
+                                    "C15_range_slices_collapse", "C15_nonvacuous"]},
     "harness_args": lambda tier: ["C15", "--tier", tier, "--n", 150 if tier == "quick" else 1500, "--workers", 160,
                                   "--binary", 60 if tier == "quick" else 500],
-    "search_args": lambda tier: ["C15", "--tier", "thorough", "--n", 600, "--workers", 160, "--binary", 200],
+    "search_args": lambda tier: ["C15", "--tier", "search", "--n", 500, "--workers", 160, "--binary", 0],
     "harness_timeout": 1200,
     "level": "proof",
     "trusted_base": [
